@@ -2,15 +2,19 @@
 import re
 from core import *  # noqa
 from roles import *  # noqa
-import roles, shared, symex
-from rules_C01 import find_respond_impl
+import roles, shared, symex, inline, absint
+import queue_rules as Q
+import request_rules as RR
+import framing_rules as FRM
 
 EXPLANATION = (
-    "Typestate of Request.response_writer decided by census on MIR (for every handler program): the slot is filled once at construction and "
-    "emptied only by one private helper, reached only through methods that take the Request by value or through Drop; Drop answers 500 iff "
-    "the slot is still occupied and touches no writer otherwise; respond/upgrade/Drop print exactly one response each; the extracted writer "
-    "is dropped on every exit so successors are released; Request cannot be cloned or built elsewhere; the statuses the library itself "
-    "generates are exactly {400,408,417,505 (parser), 500 (Drop), 100 (as_reader)}.")
+    "Typestate of the Request's response slot decided by abstract path exploration of its public API (each method with the private helpers of its "
+    "file spliced in, started with the slot occupied resp. empty; independent of helper structure and of how the slot is stored): respond / into_writer / "
+    "upgrade take the Request by value and leave the slot empty by the time the consumed Request is destroyed, so its destructor cannot answer again; "
+    "respond and upgrade print exactly one response (the application's) into the request's own writer, into_writer hands that writer out; no borrowing "
+    "method empties the slot; the destructor answers an empty 500 exactly once iff the slot is still occupied, before anything that may wait for the "
+    "client, and writes nothing otherwise; Request cannot be cloned or built outside new_request; a new Request starts with an occupied slot; the "
+    "statuses the library generates by itself are {400,408,417,505} in the parser and {500,100} in the request module.")
 TRUSTED = ["rustc MIR / move semantics (a by-value `self` cannot be used again)", "unwinding is enabled (panic=unwind) for the panicking-handler clause",
            "the socket accepts the bytes"]
 
@@ -18,152 +22,169 @@ TRUSTED = ["rustc MIR / move semantics (a by-value `self` cannot be used again)"
 def run(ctx):
     facts = ctx.facts
     roles.bind(facts)
-    nr = facts.fn("request::new_request")
-    rdrop = method(facts, T_DROP, REQ, "drop")
-    respond = roles.inherent(facts, REQ, "respond")
-    into_writer = roles.inherent(facts, REQ, "into_writer")
-    upgrade = roles.inherent(facts, REQ, "upgrade")
-    as_reader = roles.inherent(facts, REQ, "as_reader")
-    respond_impl = find_respond_impl(facts)
+    RM = RR.rmodel(facts)
+    FM = FRM.fmodel(facts)
+    consuming = {}
+    for name in ("respond", "into_writer", "upgrade"):
+        g = RM.methods.get(name)
+        ctx.ob("C06.3", "api|%s" % name, "Request::%s exists" % name, g is not None, RM.file)
+        if g is not None:
+            consuming[name] = g
+            ctx.ob("C06.3", "by-value|%s" % g.id, "%s takes the Request by value" % name, g.argc >= 1 and g.local_ty(1) == REQ, "%s:%d" % (g.file, g.line), g.local_ty(1))
+    for k, g in sorted(facts.local_fns.items()):
+        if g.rec.get("impl_self_adt") == REQ and g.rec.get("impl_trait") is None and g.rec.get("vis_pub") and g.argc >= 1 and g.local_ty(1) == REQ:
+            ok = g.rec["name"] in consuming or g.local_ty(0) == REQ
+            ctx.ob("C06.3", "consuming-api|%s" % g.id, "the only public methods consuming a Request are respond / into_writer / upgrade (and builders returning it)", ok, "%s:%d" % (g.file, g.line))
 
-    # ---- C06.1 / C06.2 slot census
-    ts = shared.slot_typestate(facts, "response_writer")
-    ctx.floor("C06.1 functions emptying the response slot", len(ts["emptiers"]), 1)
-    for e in sorted(ts["emptiers"]):
-        ef = facts.fns[e]
-        ctx.touch(ef)
-        ok = ef.rec.get("impl_self_adt") == REQ and not ef.rec.get("vis_pub")
-        ctx.ob("C06.1", "slot-emptier|%s" % e, "the response slot is emptied only by a private helper of Request", ok or e in (into_writer.id, upgrade.id, respond.id), "%s:%d" % (ef.file, ef.line))
-    for g, bb, why in ts["bad"]:
-        ctx.ob("C06.2", "slot-emptied-without-consuming|%s" % g.id, "whoever empties the response slot consumes the Request (so it cannot be answered again)", False, g.loc(bb) if bb else "%s:%d" % (g.file, g.line), why)
-    ctx.ob("C06.2", "slot-emptiers-consume", "every path to emptying the response slot goes through a method taking the Request by value, or through Drop", not ts["bad"], "%s:%d" % (respond_impl.file, respond_impl.line))
-    allowed_users = {upgrade.id, as_reader.id, rdrop.id} | ts["emptiers"]
-    for u in sorted(ts["users"]):
-        uf = facts.fns[u]
-        ctx.ob("C06.1", "slot-user|%s" % u, "the response slot is borrowed only by upgrade (101), as_reader (100-continue) and Drop's occupancy test", u in allowed_users, "%s:%d" % (uf.file, uf.line))
+    # ---- C06.1/C06.2/C06.5 consuming methods: one answer, slot empty when the consumed Request dies
+    for name, g in sorted(consuming.items()):
+        extra = {(2,): RR.RESPONSE} if name == "respond" else ({(3,): RR.RESPONSE} if name == "upgrade" else {})
+        f, ps = RM.run(g, extra=extra)
+        ctx.touch(f, paths=len(ps))
+        where = "%s:%d" % (g.file, g.line)
+        bad_slot, bad_print, bad_ret = [], [], []
+        for p in ps:
+            if p.end[0] != "return":
+                bad_slot.append(Q._ret_str(p))
+                continue
+            # the consumed Request is destroyed inside the method: its destructor must find the slot empty
+            drops = RR.request_drops(p)
+            for i, v in drops:
+                if v != ("none",):
+                    bad_slot.append("the Request is destroyed with its response slot still holding %s" % symex.sym_str(v)[:60])
+            if not drops:
+                # moved out (e.g. into the returned stream)?  then the slot must be empty in what remains
+                if RM.slot_at_end(g, p, RM.wslot) != ("none",) and not absint.contains(absint.deep(p.state, p.ret()), RR.WRITER):
+                    bad_slot.append("slot not emptied")
+            pr = RM.prints(p)
+            if name in ("respond", "upgrade"):
+                if len(pr) != 1:
+                    bad_print.append("%d responses printed" % len(pr))
+                else:
+                    i, e = pr[0]
+                    if not RM.arg_mentions(p, e, 0, RR.RESPONSE):
+                        bad_print.append("prints something else than the application's response")
+                    if not RM.arg_mentions(p, e, 1, RR.WRITER):
+                        bad_print.append("prints into something else than the request's own writer")
+            else:
+                if pr:
+                    bad_print.append("into_writer prints a response")
+            if name in ("into_writer", "upgrade"):
+                if not absint.contains(absint.deep(p.state, p.ret()), RR.WRITER):
+                    bad_ret.append(symex.sym_str(p.ret())[:80])
+        ctx.ob("C06.2", "%s|slot-empty-when-consumed" % g.id, "%s empties the response slot before the consumed Request is destroyed, on every path (so the destructor cannot answer a second time)" % name,
+               bool(ps) and not bad_slot, where, None if not bad_slot else str(bad_slot[:3]))
+        if name in ("respond", "upgrade"):
+            ctx.ob("C06.5", "%s|prints-once" % g.id, "%s prints exactly one response: the application's, into this request's own writer" % name, bool(ps) and not bad_print, where, None if not bad_print else str(bad_print[:3]))
+        else:
+            ctx.ob("C06.5", "%s|prints-nothing" % g.id, "into_writer itself writes no response", bool(ps) and not bad_print, where, None if not bad_print else str(bad_print[:3]))
+        if name in ("into_writer", "upgrade"):
+            ctx.ob("C06.5", "%s|returns-own-writer" % g.id, "%s hands out this request's own writer" % name, bool(ps) and not bad_ret, where, None if not bad_ret else str(bad_ret[:3]))
+        # with the slot already empty these methods cannot be reached (by-value self); nothing to check
+
+    # ---- C06.1 borrowing methods keep the slot occupied
+    n = 0
+    for name, g in sorted(RM.methods.items()):
+        if g.argc < 1 or not g.local_ty(1).startswith("&") or REQ not in g.local_ty(1):
+            continue
+        if not g.rec.get("vis_pub"):
+            continue
+        f, ps = RM.run(g)
+        n += 1
+        bad = [Q._ret_str(p)[:60] for p in ps if p.end[0] == "return" and RM.slot_at_end(g, p, RM.wslot) != ("some", RR.WRITER)]
+        ctx.ob("C06.1", "borrowing-api|%s" % g.id, "a method that only borrows the Request leaves its response slot occupied (it cannot be `answered` that way)", not bad, "%s:%d" % (g.file, g.line),
+               None if not bad else str(bad[:2]))
+    ctx.floor("C06.1 public borrowing methods of Request", n, 5)
+    # who touches the slot at all: only the request module
+    for fld_path in (RM.wslot,):
+        owner = REQ
+        for seg in fld_path:
+            for g, bb, kind in facts.field_reads(owner, seg):
+                ctx.ob("C06.1", "slot-user|%s" % g.id, "the response slot is touched only inside the request module", g.file == RM.file, g.loc(bb))
+            nxt = [x["ty"] for x in facts.adt(owner)["variants"][0]["fields"] if x["name"] == seg]
+            owner = nxt[0] if nxt and nxt[0] in facts.adts else owner
+
+    # ---- C06.6 construction
     cons = [(g, bb, s) for g, bb, s in facts.constructions(REQ)]
     ctx.require(cons, "C06.1: Request is never constructed")
     for g, bb, s in cons:
-        ctx.ob("C06.6", "construct|%s" % g.id, "a Request is constructed only by new_request", g.id == nr.id, g.loc(bb))
-        r = s["rhs"]
-        o = g.origin(r["ops"][r["fields"].index("response_writer")])
-        ok = o[0] == "agg" and o[4] == "Some"
-        ctx.ob("C06.1", "%s|slot-starts-occupied" % g.id, "a new Request starts with an occupied response slot", ok, g.loc(bb), origin_str(o))
-    callers = facts.callers_of(nr.id)
-    cc_read = roles.inherent(facts, CC, "read")
+        ctx.ob("C06.6", "construct|%s" % g.id, "a Request is constructed only by new_request (and its helpers)", g.file == FM.nr0.file and g.id in [d for dep, d in FM.nr.inlined], g.loc(bb))
+    oks = [r for r in FM.rows if r["kind"] == "ok"]
+    occupied = all(absint.deep(r["path"].state, functools_get(r["request"], RM.wslot))[0] == "some" for r in oks)
+    ctx.ob("C06.1", "%s|slot-starts-occupied" % FM.nr0.id, "a new Request starts with an occupied response slot", bool(oks) and occupied, "%s:%d" % (FM.nr0.file, FM.nr0.line))
+    callers = facts.callers_of(FM.nr0.id)
+    import parser_rules as PRS
+    PM = PRS.pmodel(facts)
     for g, bb, t in callers:
-        ok = g.id == cc_read.id or g.id.startswith("test::<impl std::convert::From<test::TestRequest> for request::Request>::from")
+        ok = g.file == PM.file or g.id.startswith("test::")
         ctx.ob("C06.6", "new_request-caller|%s" % g.id, "requests are created only by the connection parser (and the TestRequest conversion)", ok, g.loc(bb))
     ctx.floor("C06.6 new_request callers", len(callers), 1)
-
-    # ---- C06.3 signatures
-    for g in (respond, into_writer, upgrade):
-        ctx.ob("C06.3", "by-value|%s" % g.id, "%s takes the Request by value" % g.rec["name"], g.argc >= 1 and g.local_ty(1) == REQ, "%s:%d" % (g.file, g.line), g.local_ty(1))
-    for k, g in sorted(facts.local_fns.items()):
-        if g.rec.get("impl_self_adt") == REQ and g.rec.get("impl_trait") is None and g.rec.get("vis_pub") and g.argc >= 1:
-            st = g.local_ty(1)
-            if st == REQ:
-                ok = g.id in (respond.id, into_writer.id, upgrade.id) or g.local_ty(0) == REQ
-                ctx.ob("C06.3", "consuming-api|%s" % g.id, "the only public methods consuming a Request are respond / into_writer / upgrade (and builders returning it)", ok, "%s:%d" % (g.file, g.line))
-
-    # ---- C06.4 Drop
-    f = rdrop
-    ctx.touch(f)
-    tests = [(bb, t) for bb, t in f.calls() if call_is(t, "std::option::Option::<T>::is_some", "std::option::Option::<T>::is_none") and "response_writer" in arg_origin_fields(f, t)]
-    sw_alt = None
-    if not tests:
-        for bb in sorted(f.live_blocks()):
-            sw = switch_on_discr(f, bb)
-            if sw and "response_writer" in origin_fields(f.origin_place(sw[0]["pl"])):
-                sw_alt = (bb, sw)
-    ctx.ob("C06.4", "%s|tests-slot" % f.id, "Drop looks at the response slot", bool(tests) or sw_alt is not None, "%s:%d" % (f.file, f.line))
-    occ = emp = None
-    if tests:
-        bb, t = tests[0]
-        bs = bool_switch(f, t["target"])
-        ctx.require(bs is not None, "C06.4: slot test not branched on")
-        occ, emp = (bs[1], bs[2]) if t["name"] == "is_some" else (bs[2], bs[1])
-    elif sw_alt:
-        bb, (rv, m, otherwise, rest) = sw_alt
-        occ = m.get("Some", otherwise if "Some" in rest else None)
-        emp = m.get("None", otherwise if "None" in rest else None)
-    if occ is not None:
-        ri = set(f.call_blocks(lambda t: call_is(t, respond_impl.id)))
-        reach = f.reach([occ], blocked=ri, unwind=False)
-        ok = bool(ri) and not any(r in reach for r in f.returns())
-        ctx.ob("C06.4", "%s|occupied-answers" % f.id, "an unanswered Request is answered by its destructor on every path", ok, f.loc(occ))
-        for b in ri:
-            o = f.origin(f.term(b)["args"][1])
-            codes = [x for x in origin_calls(o) if re.search(r"response::Response::<std::io::Empty>::(empty|new_empty)", x[1])]
-            c = None
-            if codes and codes[0][2]:
-                a0 = codes[0][2][0]
-                c = a0[1] if a0[0] == "const" else (a0[2][0][1] if a0[0] == "agg" and a0[2] and a0[2][0][0] == "const" else None)
-            ctx.ob("C06.4", "%s|answers-500" % f.id, "the automatic answer is an empty 500", c == 500, f.loc(b), origin_str(o))
-            ctx.ob("C06.4", "%s|answers-once" % f.id, "the destructor answers once", not f.in_loop(b) and len(ri) == 1, f.loc(b))
-        # nothing that waits for the client may come before the automatic answer: destroying (draining) the body
-        # reader first would make the 500 wait for body bytes the client may never send
-        inst = facts.mono_instance(f.id)
-        before = f.reach([occ], blocked=ri, unwind=False)
-        early = []
-        for b in sorted(before):
-            if f.blocks[b]["cleanup"]:
-                continue
-            t2 = f.term(b)
-            if t2["t"] in ("call", "drop"):
-                eff = facts.call_effects(inst, b) & {"BLOCK-IO", "WAIT-TURN-R", "CV-WAIT", "SLEEP"}
-                if eff:
-                    early.append((f.loc(b), sorted(eff)))
-        for g2, b2, kind, x in facts.field_writes(REQ, "data_reader"):
-            if g2.id == f.id and b2 in before and kind in ("assign", "drop", "mutref", "calldest"):
-                early.append((f.loc(b2), "body reader replaced/destroyed"))
-        ctx.ob("C06.4", "%s|answer-before-draining" % f.id, "the automatic 500 is written before the body reader is destroyed (its destructor may wait for body bytes the client never sends)",
-               not early, f.loc(occ), None if not early else str(early[:3]))
-        r_emp = f.reach([emp], unwind=False)
-        touched = [b for b in r_emp if f.term(b)["t"] == "call" and (call_is(f.term(b), respond_impl.id) or f.term(b).get("trait") == T_WRITE or call_matches(f.term(b), r"raw_print$"))]
-        ctx.ob("C06.4", "%s|answered-stays-silent" % f.id, "a Request that was already answered writes nothing when destroyed", not touched, f.loc(emp))
-
-    # ---- exactly one response per answering path
-    for g, what in ((respond_impl, "respond_impl"), (upgrade, "upgrade")):
-        rps = g.call_blocks(lambda t: call_matches(t, r"response::Response::<R>::raw_print$"))
-        ok = len(rps) == 1 and not g.in_loop(rps[0])
-        ctx.ob("C06.5", "%s|prints-once" % g.id, "%s prints exactly one response" % what, ok, "%s:%d" % (g.file, g.line))
-    ris = respond.call_blocks(lambda t: call_is(t, respond_impl.id))
-    ctx.ob("C06.5", "%s|responds-once" % respond.id, "respond() answers exactly once", len(ris) == 1 and not respond.in_loop(ris[0]), "%s:%d" % (respond.file, respond.line))
-    # the response given to respond() is the one printed
-    if ris:
-        o = respond.origin(respond.term(ris[0])["args"][1])
-        ctx.ob("C06.5", "%s|prints-given-response" % respond.id, "what respond() prints is the application's response", o == ("arg", 2), respond.loc(ris[0]), origin_str(o))
-    g = respond_impl
-    rps = g.call_blocks(lambda t: call_matches(t, r"raw_print$"))
-    if rps:
-        t = g.term(rps[0])
-        o0 = g.origin(t["args"][0])
-        ctx.ob("C06.5", "%s|prints-given-response" % g.id, "respond_impl prints the response it was given", o0 == ("arg", 2), g.loc(rps[0]), origin_str(o0))
-        ow = g.origin(t["args"][1])
-        okw = any(x[0] == "call" and x[1] in ts["emptiers"] for x in origin_walk(ow))
-        ctx.ob("C06.5", "%s|prints-into-own-writer" % g.id, "the response goes to this request's own writer", okw, g.loc(rps[0]), origin_str(ow))
-    # into_writer hands out exactly the extracted writer
-    o = into_writer.origin_place({"l": 0, "p": []})
-    sl = shared.backward_slice_locals(into_writer, [0])
-    okw = any(d[0] == "call" and call_name(d[2]) in ts["emptiers"] for l in sl for d in into_writer.defs().get(l, []))
-    ctx.ob("C06.5", "%s|returns-own-writer" % into_writer.id, "into_writer returns this request's writer", okw, "%s:%d" % (into_writer.file, into_writer.line), origin_str(o))
-
-    # ---- C06.6 no Clone
     for tr in (T_CLONE, T_COPY):
         ctx.ob("C06.6", "noimpl|%s" % tr, "a Request cannot be duplicated", not facts.has_impl(tr, REQ), REQ)
 
-    # ---- C06.7 statuses generated by the library itself
-    expected = {"<client::ClientConnection as std::iter::Iterator>::next": {400, 408, 417, 505}, rdrop.id: {500}, as_reader.id: {100}}
-    found = {}
-    for k, g in sorted(facts.local_fns.items()):
-        if g.id.startswith("test::") or re.search(r"common::StatusCode", g.id) or g.id.startswith("response::"):
+    # ---- C06.4 Drop
+    g = RM.drop
+    where = "%s:%d" % (g.file, g.line)
+    f, ps = RM.run(g, writer="some")
+    ctx.touch(f, paths=len(ps))
+    bad, early = [], []
+    for p in ps:
+        pr = RM.prints(p)
+        if len(pr) != 1:
+            bad.append("%d responses printed" % len(pr))
             continue
-        for bb, c in shared.status_consts_in(g):
-            if isinstance(c, int):
-                found.setdefault(g.id, set()).add(c)
-    for fid in sorted(set(found) | set(expected)):
-        ok = found.get(fid, set()) == expected.get(fid, set())
-        ctx.ob("C06.7", "lib-status|%s" % fid, "the library generates a response of its own only at the documented places with the documented status", ok, fid,
-               "found %s expected %s" % (sorted(found.get(fid, ())), sorted(expected.get(fid, ()))))
+        i, e = pr[0]
+        if RM.status_consts(p, e) != {500}:
+            bad.append("status %s" % sorted(RM.status_consts(p, e)))
+        if not RM.arg_mentions(p, e, 1, RR.WRITER):
+            bad.append("not printed into the request's own writer")
+        if RM.slot_at_end(g, p, RM.wslot) != ("none",):
+            bad.append("slot still occupied after the automatic answer")
+        for j, ev in enumerate(p.events[:i]):
+            if ev[1] in ("call", "drop") and not f.blocks[ev[0]].get("synthetic"):
+                eff = facts.effects_at(f, ev[0]) & {"BLOCK-IO", "WAIT-TURN-R", "CV-WAIT", "SLEEP"}
+                if eff:
+                    early.append((f.loc(ev[0]), sorted(eff)))
+            if ev[1] == "drop" and absint.contains(ev[4], RR.READER):
+                early.append((f.loc(ev[0]), "body reader destroyed"))
+    ctx.ob("C06.4", "%s|occupied-answers-500-once" % g.id, "an unanswered Request is answered by its destructor on every path, exactly once, with an empty 500 into its own writer", bool(ps) and not bad, where, None if not bad else str(bad[:3]))
+    ctx.ob("C06.4", "%s|answer-before-draining" % g.id, "the automatic 500 is written before the body reader is destroyed and before anything that may wait for the client", not early, where, None if not early else str(early[:3]))
+    f, ps = RM.run(g, writer="none")
+    touched = []
+    for p in ps:
+        for e in p.calls():
+            if re.search(RR.RAW_PRINT, e[2]) or (e[6] or "").startswith("std::io::Write::") or re.search(r" as std::io::Write>::(write|flush|write_all)", e[2]):
+                touched.append(short(e[2]))
+    ctx.ob("C06.4", "%s|answered-stays-silent" % g.id, "a Request that was already answered writes nothing when destroyed", bool(ps) and not touched, where, None if not touched else str(touched[:3]))
+
+    # ---- C06.7 where the library prints a response by itself: only in the connection parser's next() (error answers, C10.1),
+    # in respond / upgrade (the application's response), as_reader (interim 100, C18) and the destructor (automatic 500)
+    roots = [PM.nxt] + [RM.fn(RM.methods[n]) for n in ("respond", "upgrade", "as_reader") if n in RM.methods] + [RM.fn(RM.drop)]
+    allowed = set()
+    for r in roots:
+        for b2 in range(r.n):
+            blk = r.blocks[b2]
+            if blk.get("synthetic"):
+                continue
+            t2 = blk["term"]
+            if t2["t"] == "call" and call_matches(t2, RR.RAW_PRINT):
+                allowed.add((r.src_of(b2), blk.get("obb", b2)))
+    n = 0
+    for g2, bb2, t2 in facts.all_calls(lambda t: call_matches(t, RR.RAW_PRINT)):
+        if g2.id.startswith("test::") or g2.file.endswith("response.rs"):
+            continue
+        n += 1
+        ctx.ob("C06.7", "prints-a-response|%s" % g2.id, "the library prints a response only in the connection parser's error arms, respond, upgrade, as_reader and the Request's destructor (never while building a request or elsewhere)",
+               (g2.id, bb2) in allowed, g2.loc(bb2))
+    ctx.floor("C06.7 sites printing a response", n, 5)
     return {}
+
+
+def functools_get(rq, path):
+    v = ("agg", REQ, "Request", rq)
+    for seg in path:
+        if v[0] == "agg" and seg in v[3]:
+            v = v[3][seg]
+        else:
+            return ("unknown",)
+    return v
